@@ -813,6 +813,11 @@ def account(st, case, impl, model, spec):
             st.count('plug:%s,outcome=%s' % (case['cat'], model.get('pick')))
             st.count('plug:class=%s' % ((model.get('cls') or ['-'])[0]))
             st.count('plug:layers-present=%s' % '+'.join(l for l in optcfglib.LAYER3 if lay[l] is not None))
+            if case.get('broken'):
+                b = case['broken'][2]
+                st.count('plug:entry-does-not-load=%s,%s,all_load=%s,outcome=%s'
+                         % (case['cat'], 'no-colon' if ':' not in b else 'two-colons' if b.count(':') > 1 else
+                            'no-module' if b.startswith('nomod') else 'no-attr', model.get('all_load'), model.get('pick')))
             if case['name'] in case['core'] and n_def:
                 st.count('plug:plugin-shadows-core-name')
         else:
